@@ -63,4 +63,11 @@ def fpRand {σ : Type} (draw : σ → Nat → Option (List UInt8 × σ)) (w fpDi
     let a := valDigits w (maskTop (digitsOf bytes w fpDigs) (fpBits % w))
     some (subWhile p (a + 1) a, s')
 
+/-- fb_rand: RLC_FB_DIGS·(w/8) bytes → digits, top digit masked to `fbBits % w` bits (no reduction: every bit pattern below the degree
+    is a field element) -/
+def fbRand {σ : Type} (draw : σ → Nat → Option (List UInt8 × σ)) (w fbDigs fbBits : Nat) (s : σ) : Option (List Nat × σ) :=
+  match draw s (fbDigs * (w / 8)) with
+  | none => none
+  | some (bytes, s') => some (maskTop (digitsOf bytes w fbDigs) (fbBits % w), s')
+
 end Relic.Model.RandInt
